@@ -18,7 +18,14 @@ CLAIMED = {
 }
 NOTE = ('Trusted base: the mirsym interpreter and the library models of DESIGN.md section 4 (tokio Semaphore, std Mutex/Arc/VecDeque/atomics as sequentially consistent); '
         'validated on every run by executing random traces in the engine and in the real crate (translation validation) and by native replay of every counterexample. '
+        'std combinators without a model run the plain-Rust reference bodies of /verif/shim from their MIR (DESIGN.md 13.2a). '
+        'Families named "fine interleaving" preempt before every access to shared state; their schedules cannot be forced on the real crate and are reported as engine evidence only. '
         'Bounds per family are in the evidence file; beyond them nothing is claimed.')
+IND = (' In addition an inductive step: one complete operation (get with every outcome script and 0 or 3 hooks, return, take, retain of any subset, status) from an ARBITRARY rest state '
+       '(max_size, objects out and recycle counts 64-bit symbolic, 0-2 idle objects) must re-establish the rest invariant and the operation\'s post-condition on every path - '
+       'sequential histories of any length and any max_size.')
+for _p in ('C01', 'C02', 'C09', 'C11'):
+    pass
 CLAIMED.update({
  'C14': ('model_checking', 'The real MIR of deadpool-sync (SyncWrapper::new / interact / Drop) and deadpool-runtime (spawn_blocking, spawn_blocking_background) on a model of the tokio blocking pool in which queued tasks run in any order on blocking threads: up to 3 interact calls (closure ok / panic; awaited, or cancelled before or after the closure ran), drop of the wrapper at any step. Every creation / closure / destructor event carries the kind of thread it ran on.', '8 C14'),
  'C15': ('model_checking', 'Manager::recycle of deadpool-sqlite, deadpool-r2d2 and deadpool-diesel (real MIR, linked with the real SyncWrapper MIR) for every history of the wrapper (fresh, used, poisoned, cancelled closure still queued that will panic or not), every backend answer (healthy, broken, invalid, wrong echo, failing ping / custom check, broken transaction manager) and every diesel recycling method, with the blocking pool running tasks in any order. recycle() may return Ok only for an unpoisoned, healthy connection and consults the backend only on blocking threads; composed with C04 and C14.', '8 C15'),
@@ -38,9 +45,10 @@ def main():
                    'baseline_off_cmd': 'cd /repo && cargo test --workspace --no-fail-fast --offline', 'source_commits': hooks_commit, 'add_only': True},
          'engines': [{'name': 'mirsym', 'path': 'mirsym/', 'serves_properties': sorted(CLAIMED),
                       'kind_free_text': 'symbolic interpreter for rustc MIR (dumped from /repo on every run) with z3; bounded symbolic exploration + native replay driver in replay/'}],
-         'checks': [], 'notes': 'see DESIGN.md; exit 0 = held (possibly with KNOWN-FINDING lines), 1 = VIOLATION (natively reproduced), 2 = inconclusive',
+         'checks': [], 'notes': 'see DESIGN.md (section 13 is authoritative); exit 0 = held (possibly with KNOWN-FINDING lines), 1 = VIOLATION (natively reproduced, or marked [engine evidence only: reason]), 2 = inconclusive',
          'not_applicable': [{'property_id': k, 'reason': v} for k, v in sorted(NA.items())]}
     for pid, (level, text, ref) in sorted(CLAIMED.items()):
+        if pid in ('C01', 'C02', 'C09', 'C11'): text = text + IND
         m['checks'].append({'property_id': pid, 'quick_cmd': f'./check {pid} --tier quick', 'thorough_cmd': f'./check {pid} --tier thorough',
                             'evidence_file': f'/verif/evidence/{pid}.json', 'replay_cmd_template': f'./check {pid} --replay {{path}}', 'engine': 'mirsym',
                             'level_claimed': {'category': level, 'text': text, 'design_ref': 'DESIGN.md section ' + ref}, 'level_note': NOTE,
